@@ -346,6 +346,26 @@ fn c04_part_peer_haves() {
 fn c04_part_needed_versions_requested_iff_peer_has_them() {
     let our_need: u32 = kani::any();
     kani::assume(our_need & !bits(1, N) == 0);
+    part_needed_versions(our_need);
+}
+// the same block with our need set CONCRETE per harness (loop trip counts become concrete; the
+// peer's haves stay symbolic): the seven cases are every non-empty need set over versions 1..=3
+macro_rules! needed_versions_case {
+    ($name:ident, $mask:expr) => {
+        #[kani::proof]
+        fn $name() {
+            part_needed_versions($mask);
+        }
+    };
+}
+needed_versions_case!(c04_part_needed_versions_need_1_x, 0b0010);
+needed_versions_case!(c04_part_needed_versions_need_2_x, 0b0100);
+needed_versions_case!(c04_part_needed_versions_need_12_x, 0b0110);
+needed_versions_case!(c04_part_needed_versions_need_3_x, 0b1000);
+needed_versions_case!(c04_part_needed_versions_need_13_x, 0b1010);
+needed_versions_case!(c04_part_needed_versions_need_23_x, 0b1100);
+needed_versions_case!(c04_part_needed_versions_need_123_x, 0b1110);
+fn part_needed_versions(our_need: u32) {
     let haves_mask: u32 = kani::any();
     kani::assume(haves_mask & !bits(1, N) == 0);
     let mut ours = SyncStateV1 { actor_id: SELF, ..Default::default() };
@@ -384,10 +404,29 @@ fn c04_part_versions_beyond_our_head_requested() {
 /// partially held version: the peer holds it completely → all our missing sequences;
 /// the peer holds it partially → exactly our missing ∩ what it has (nothing if that is empty)
 fn part_missing_sequences(peer_partial_too: bool) {
-    let pv: u64 = kani::any();
-    kani::assume(1 <= pv && pv <= N);
     let our_missing: u32 = kani::any();
     kani::assume(our_missing != 0 && our_missing & !bits(0, M) == 0);
+    part_missing_sequences_of(peer_partial_too, our_missing);
+}
+macro_rules! missing_sequences_case {
+    ($name:ident, $mask:expr) => {
+        #[kani::proof]
+        fn $name() {
+            part_missing_sequences_of(true, $mask);
+        }
+    };
+}
+// our missing sequences concrete per harness (every non-empty subset of 0..=2), the peer's symbolic
+missing_sequences_case!(c04_part_missing_sequences_both_partial_ours_0_x, 0b001);
+missing_sequences_case!(c04_part_missing_sequences_both_partial_ours_1_x, 0b010);
+missing_sequences_case!(c04_part_missing_sequences_both_partial_ours_01_x, 0b011);
+missing_sequences_case!(c04_part_missing_sequences_both_partial_ours_2_x, 0b100);
+missing_sequences_case!(c04_part_missing_sequences_both_partial_ours_02_x, 0b101);
+missing_sequences_case!(c04_part_missing_sequences_both_partial_ours_12_x, 0b110);
+missing_sequences_case!(c04_part_missing_sequences_both_partial_ours_012_x, 0b111);
+fn part_missing_sequences_of(peer_partial_too: bool, our_missing: u32) {
+    let pv: u64 = kani::any();
+    kani::assume(1 <= pv && pv <= N);
     let mut ours = SyncStateV1 { actor_id: SELF, ..Default::default() };
     let mut m = HashMap::new();
     m.insert(CrsqlDbVersion(pv), runs(our_missing, 0, M, CrsqlSeq));
